@@ -241,3 +241,27 @@ def check_tagging_job(TG, counts, valids):
     if meta.get('total_molecules') != written:
         return 'job_total'
     return None
+
+
+# ---------- get_contigs_with_reads
+def check_contigs_with_reads(n, ms, us, su, with_length):
+    """the real get_contigs_with_reads over the text `samtools idxstats` prints (contig, length, #mapped, #unmapped-but-placed; last
+    line '*'): every contig that holds ANY record - also one with only unmapped, placed records - must be listed, in file order.
+    ms / us / su: indices into the count pool [0, 1, 7]."""
+    import types
+    from vlib.sym import pick
+    import singlecellmultiomics.bamProcessing.bamFunctions as BFm
+    C = [0, 1, 7]
+    rows = [('chrA', 5000, pick(C, ms[0]), pick(C, us[0])), ('chrB', 200000, pick(C, ms[1]), pick(C, us[1])), ('chrC', 31, pick(C, ms[2]), pick(C, us[2]))][:n]
+    star_unmapped = pick(C, su)
+    text = ''.join('%s\t%d\t%d\t%d\n' % r for r in rows) + '*\t0\t0\t%d\n' % star_unmapped
+    real = BFm.pysam
+    BFm.pysam = types.SimpleNamespace(idxstats=lambda path: text)
+    try:
+        got = list(BFm.get_contigs_with_reads('in.bam', with_length))
+    finally:
+        BFm.pysam = real
+    want = [((r[0], r[1]) if with_length else r[0]) for r in rows if r[2] > 0 or r[3] > 0]
+    if star_unmapped > 0:
+        want.append(('*', 0) if with_length else '*')
+    return None if got == want else 'contig_list'
